@@ -15,7 +15,7 @@ ASSUMPTIONS = [
 TIMEOUT_MS = {"quick": 10000, "thorough": 30000}
 
 GRID = {
-    "T_HOO": [{}, {"nu": 1, "rho": 0.9}, {"nu": 0.1, "rho": 0.5}, {"nu": 10, "rho": 0.3, "rounds": 1000}, {"nu": 0.3, "rho": 0.5}, {"nu": 0.15, "rho": 0.5}],
+    "T_HOO": [{}, {"nu": 1, "rho": 0.9}, {"nu": 0.1, "rho": 0.5}, {"nu": 10, "rho": 0.3, "rounds": 1000}, {"nu": 0.3, "rho": 0.5}, {"nu": 0.15, "rho": 0.5}, {"nu": 0.02, "rho": 0.5}, {"nu": 0.05, "rho": 0.8, "rounds": 64}],
     "HCT": [{}, {"c": 0.1}, {"nu": 0.1, "rho": 0.5}, {"nu": 10, "rho": 0.3, "c": 0.5}, {"c": 0.35, "delta": 0.1}],
     "VHCT": [{}, {"c": 0.1}, {"bound": 2, "c": 0.05}],
 }
